@@ -30,24 +30,37 @@ class Scope:
         return Scope(self)
 
 
+TRANSPARENT = ("Some", "Ok", "Err")
+
+
+def _steps(via):
+    if not via:
+        return ()
+    if isinstance(via[0], tuple):
+        return tuple(via)
+    return (tuple(via),)
+
+
 def bind_pattern(p, src, scope, how, via=None):
-    """bind every identifier of pattern p; `src` = (expr, scope the expression lives in) the pattern is matched against"""
+    """bind every identifier of pattern p; `src` = (expr, scope the expression lives in) the pattern is matched against; `via` = the path of pattern
+    steps from the matched value down to the identifier: ("field", Struct, name) and ("tuple", i)"""
     if p is None:
         return
+    via = _steps(via)
     k = p.get("k")
     if k == "p_ident":
-        scope.vars[p["n"]] = {"how": how, "src": src, "via": via, "mut": p.get("mut")}
+        scope.vars[p["n"]] = {"how": how, "src": src, "via": via or None, "mut": p.get("mut")}
         if p.get("sub"):
             bind_pattern(p["sub"], src, scope, how, via)
     elif k == "p_struct":
         for name, sub in p["f"]:
-            bind_pattern(sub, src, scope, how, ("field", p["p"].rsplit("::", 1)[-1], name))
+            bind_pattern(sub, src, scope, how, via + (("field", p["p"].rsplit("::", 1)[-1], name),))
     elif k == "p_ts":
         for i, sub in enumerate(p["e"]):
-            bind_pattern(sub, src, scope, how, ("field", p["p"].rsplit("::", 1)[-1], str(i)))
+            bind_pattern(sub, src, scope, how, via + (("field", p["p"].rsplit("::", 1)[-1], str(i)),))
     elif k == "p_tuple":
         for i, sub in enumerate(p["e"]):
-            bind_pattern(sub, src, scope, how, via if via else ("tuple", i))
+            bind_pattern(sub, src, scope, how, via + (("tuple", i),))
     elif k == "p_or":
         for c in p["c"]:
             bind_pattern(c, src, scope, how, via)
@@ -75,7 +88,18 @@ def scoped_visit(node, scope, on_node):
     if k == "block":
         s2 = scope.child()
         for st in node["s"]:
-            scoped_visit(st, s2, on_node)
+            if isinstance(st, dict) and st.get("k") == "local":
+                # every `let` opens a scope of its own for the rest of the block: a scope handed to on_node stays what it was at that point
+                # (a later `let` that shadows a name must not change what an earlier use resolves to)
+                if st.get("init") is not None:
+                    scoped_visit(st["init"], s2, on_node)
+                if st.get("else") is not None:
+                    scoped_visit(st["else"], s2, on_node)
+                s3 = s2.child()
+                bind_pattern(st["p"], (st.get("init"), s2), s3, "let")
+                s2 = s3
+            else:
+                scoped_visit(st, s2, on_node)
         return
     if k == "local":
         if node.get("init") is not None:
@@ -83,6 +107,12 @@ def scoped_visit(node, scope, on_node):
         if node.get("else") is not None:
             scoped_visit(node["else"], scope, on_node)
         bind_pattern(node["p"], (node.get("init"), scope), scope, "let")
+        return
+    if k == "while":
+        on_node(node, scope)
+        s2 = scope.child()
+        scoped_visit(node["c"], s2, on_node)
+        scoped_visit(node["b"], s2, on_node)
         return
     on_node(node, scope)
     if k == "for":
@@ -147,7 +177,11 @@ class Prov:
     def visit(self, on_node):
         scoped_visit(self.fn.body, self.root, on_node)
 
-    def tags(self, e, scope, seen=None, depth=0):
+    SHAPE_KEEPING = ("get", "get_mut", "copied", "cloned", "clone", "iter", "iter_mut", "into_iter", "next", "pop", "unwrap", "expect", "first", "last", "rev", "peekable", "peek",
+                     "as_ref", "as_mut", "to_vec", "to_owned", "unwrap_or_default", "last_mut", "first_mut", "peek_mut", "by_ref", "as_deref", "as_deref_mut", "borrow", "borrow_mut")
+
+    def tags(self, e, scope, seen=None, depth=0, comp=None):
+        """comp: when a tuple literal is reached, only its comp-th component is what the value is computed from"""
         seen = seen if seen is not None else set()
         out = set()
         if e is None or depth > 40:
@@ -160,53 +194,69 @@ class Prov:
             b, s = scope.lookup(n) if scope is not None else (None, None)
             if b is None:
                 return {"name:" + n}
-            key = (id(b),)
+            key = (id(b), comp)
             if key in seen:
                 return out
             seen.add(key)
             if b["how"] == "fnparam":
                 return {"param:" + n}
-            if b["via"] is not None and b["via"][0] == "field":
-                out.add("field:%s.%s" % (b["via"][1], b["via"][2]))
+            steps = b["via"] or ()
+            hard = [st for st in steps if st[0] == "field" and st[1] not in TRANSPARENT]
+            if hard:
+                # the first step through a struct / enum-variant pattern names the field the value IS
+                out.add("field:%s.%s" % (hard[0][1], hard[0][2]))
                 return out
+            for st in steps:
+                if st[0] == "field":
+                    out.add("field:%s.%s" % (st[1], st[2]))
+            tup = [st[1] for st in steps if st[0] == "tuple"]
+            c2 = tup[-1] if tup else comp
             src, sscope = b["src"]
             if b["how"] in ("iter", "pat"):
                 out.add("elem")
-            out |= self.tags(src, sscope, seen, depth + 1)
+            out |= self.tags(src, sscope, seen, depth + 1, c2)
             if b.get("mut"):
                 for r, rs in self.assigned.get(n, []):
-                    out |= self.tags(r, rs, seen, depth + 1)
+                    out |= self.tags(r, rs, seen, depth + 1, c2)
             return out
+        if k == "tuple" and comp is not None and comp < len(e["e"]):
+            return self.tags(e["e"][comp], scope, seen, depth + 1, None)
         if k == "mcall":
             out.add("m:" + e["m"])
-            out |= self.tags(e["r"], scope, seen, depth + 1)
-            if e["m"] not in ("to_previous_type_id", "to_type_id"):
+            keep = comp if e["m"] in self.SHAPE_KEEPING else None
+            out |= self.tags(e["r"], scope, seen, depth + 1, keep)
+            if e["m"] not in ("to_previous_type_id", "to_type_id") and not (keep is not None):
                 for a in e["a"]:
                     out |= self.tags(a, scope, seen, depth + 1)
             return out
         if k == "call":
-            out.add("f:" + canon(e["f"]).rsplit("::", 1)[-1])
+            fname = canon(e["f"]).rsplit("::", 1)[-1]
+            if fname in TRANSPARENT and len(e["a"]) == 1:
+                return self.tags(e["a"][0], scope, seen, depth + 1, comp)
+            out.add("f:" + fname)
             for a in e["a"]:
                 out |= self.tags(a, scope, seen, depth + 1)
             return out
         if k == "field":
+            if comp is None and e["m"].isdigit():
+                return self.tags(e["e"], scope, seen, depth + 1, int(e["m"]))
             out.add("m:." + e["m"])
             return out | self.tags(e["e"], scope, seen, depth + 1)
         if k == "index":
-            return out | {"indexed"} | self.tags(e["e"], scope, seen, depth + 1)
+            return out | {"indexed"} | self.tags(e["e"], scope, seen, depth + 1, comp)
         if k in ("cast", "paren", "ref", "un", "try"):
-            return self.tags(e["e"], scope, seen, depth + 1)
+            return self.tags(e["e"], scope, seen, depth + 1, comp)
         if k == "bin":
             return {"arith"} | self.tags(e["l"], scope, seen, depth + 1) | self.tags(e["r"], scope, seen, depth + 1)
         if k == "macro":
-            for a in e.get("a", []):
-                out |= self.tags(a, scope, seen, depth + 1)
+            for a in (e.get("a") or []):
+                out |= self.tags(a, scope, seen, depth + 1, comp if e.get("n") == "vec" else None)
             return out
         if k == "closure":
             s2 = scope.child() if scope is not None else Scope()
             for p_ in e.get("params", []):
                 bind_pattern(p_, (None, scope), s2, "param")
-            return self.tags(e["b"], s2, seen, depth + 1)
+            return self.tags(e["b"], s2, seen, depth + 1, comp)
         if k == "struct":
             out.add("f:" + e["p"].rsplit("::", 1)[-1])
             for f in e["f"]:
@@ -216,7 +266,7 @@ class Prov:
             return out
         if k in ("tuple", "array"):
             for x in e["e"]:
-                out |= self.tags(x, scope, seen, depth + 1)
+                out |= self.tags(x, scope, seen, depth + 1, comp if k == "array" else None)
             return out
         if k == "block":
             s2 = scope.child() if scope is not None else Scope()
@@ -226,17 +276,17 @@ class Prov:
                     bind_pattern(st["p"], (st.get("init"), s2), s2, "let")
                 elif st.get("k") == "expr" and not st.get("semi"):
                     last = st["e"]
-            return self.tags(last, s2, seen, depth + 1) if last is not None else out
+            return self.tags(last, s2, seen, depth + 1, comp) if last is not None else out
         if k in ("if", "match"):
             out.add("branch")
             if k == "if":
-                out |= self.tags(e["t"], scope, seen, depth + 1)
+                out |= self.tags(e["t"], scope, seen, depth + 1, comp)
                 if e.get("e") is not None:
-                    out |= self.tags(e["e"], scope, seen, depth + 1)
+                    out |= self.tags(e["e"], scope, seen, depth + 1, comp)
             else:
                 for a_ in e["arms"]:
                     s2 = scope.child() if scope is not None else Scope()
                     bind_pattern(a_["p"], (e["e"], scope), s2, "pat")
-                    out |= self.tags(a_["b"], s2, seen, depth + 1)
+                    out |= self.tags(a_["b"], s2, seen, depth + 1, comp)
             return out
         return {"expr:" + str(k)}
